@@ -1366,8 +1366,17 @@ def run(ctx):
         n_gen = ctx.n(55, 1190)
         batch = sweep.gen_batch(ctx, n_gen, features=GEN_FEATURES, size=1.5, label="c14gen")
         ctx.require(len(batch) >= n_gen * 0.6, "generator produced too few programs (%d of %d)" % (len(batch), n_gen))
+        unprintable = 0
         for i, prog, exp in batch:
-            items.append(("nlv.gen", "gen%05d" % i, prog.files()))
+            try:
+                files = prog.files()
+            except (TypeError, KeyError, IndexError, ValueError, AttributeError):
+                # nlv.gen occasionally leaves a hole (None) in a part of the tree that its reference model never
+                # evaluates (a function-typed argument for which no function exists); such a program cannot be printed
+                unprintable += 1
+                continue
+            items.append(("nlv.gen", "gen%05d" % i, files))
+        ctx.require(unprintable <= max(2, len(batch) // 50), "%d of %d generated programs could not be printed" % (unprintable, len(batch)))
 
         def do(item):
             fam, label, files = item
@@ -1441,6 +1450,7 @@ def run(ctx):
             "alias_machine_operations": dict(sorted(am_ops.items(), key=lambda kv: -kv[1])),
             "churn": churn_table,
             "sanitizer_reports_outside_vm": tally.frontend_reports,
+            "generated_programs_unprintable": unprintable,
             "samples": tally.samples,
         }, assumptions=[
             "hook H2 (registry in heap.c, verif_vm_audit in vm.c) computes the in-degree from: operand stack incl. locals, globals[0..global_count), frame closures; edges: array elements, struct/union/tuple fields, closure captures, hashmap keys and values; the intern table is weak",
